@@ -175,6 +175,17 @@ def explore_all(repo: Repo, tier: str = "quick") -> Corpus:
                  inline_depth=6, max_steps=steps, assume=NO_DEBUG + NO_DIALECT,
                  models={f"{M_BUILDER}::FieldUnpackerCodeBlockBuilder.build": m_build_stub},
                  force_opaque={"build", "__get_field_alias"})
+    # the same body compiled for a call dialect (dialect-specific stub re-dispatch, dialect registration of the class-level discriminator)
+    c2 = Corpus()
+    run_scenario(repo, c2, "unpack_lines", repo.func(M_BUILDER, "CodeBuilder._add_unpack_method_lines"), s_B,
+                 inline_depth=6, max_steps=steps, assume=NO_DEBUG + WITH_DIALECT,
+                 models={f"{M_BUILDER}::FieldUnpackerCodeBlockBuilder.build": m_build_stub},
+                 force_opaque={"build", "__get_field_alias"})
+    c.items.extend(c2.items)
+    c.sites_hit |= c2.sites_hit
+    c.errors.extend(c2.errors)
+    for k, v in c2.stats.items():
+        c.stats[k + "+dialect"] = v
     run_scenario(repo, c, "field_alias", repo.func(M_BUILDER, "CodeBuilder.__get_field_alias"),
                  lambda ev, p: {"fname": Sym("fname", {"FIELDNAME"})}, inline_depth=2, max_steps=steps)
     run_scenario(repo, c, "unpack_method", repo.func(M_BUILDER, "CodeBuilder.add_unpack_method"),
